@@ -60,10 +60,10 @@ Theorem C14_fast_broadcast_sound : forall (A : Type) from to c r (xs : list A),
 Proof. exact @InPlace_proofs.fast_broadcast_sound. Qed.
 
 (* (5) the executable oracle of the check is the property *)
-Theorem C14_oracle_reflects : forall op d vs alts,
-  InPlace_cases.prop_ok (InPlace_cases.Diff op d (InPlace_cases.OOk vs) alts) = true <->
-  forall n o, In (n, o) alts -> o = InPlace_cases.OOk vs.
-Proof. exact InPlace_oracle.prop_ok_diff. Qed.
+Theorem C14_oracle_reflects : forall op d base alts,
+  InPlace_cases.layout_ok (InPlace_cases.Diff op d base alts) = true <->
+  forall n o, In (n, o) alts -> o = base.
+Proof. exact InPlace_oracle.layout_ok_diff. Qed.
 
 (* non-vacuity: a transposed view of a 2x3 buffer denotes the transposed tensor *)
 Example C14_nonvacuous :
@@ -94,5 +94,5 @@ Definition C14_attention_witness : case :=
 Close Scope string_scope.
 
 Example C14_attention_rounding_witness :
-  exists c, prop_ok c = false /\ close_ok 2 c = true.
+  exists c, layout_ok c = false /\ close_ok 2 c = true.
 Proof. exists C14_attention_witness. split; vm_compute; reflexivity. Qed.
